@@ -1,5 +1,6 @@
 import Mps.Json
 import Mps.Nonce
+import Mps.Readers
 /- Driver side of suite `nonce` (C11): Lean recomputes the published nonce commitments bit for bit. -/
 namespace Mps.Drv.Nonce
 open Lean Mps Mps.Secp Mps.Nonce Mps.Sig
@@ -14,8 +15,14 @@ def parseFrost (j : Json) : FrostCtx :=
 def frostOut (c : FrostCtx) : Option (Bytes × Bytes) :=
   c.commitments.map fun (D, E) => (Sig.encodeGo D, Sig.encodeGo E)
 
+/-- the random source of one signing: the atomic counter (rand == nil), the 32 bytes the reader delivered, or — for a
+    source with short reads — a stream and the number of bytes each Read call hands out: the signer's io.ReadFull -/
 def bipCtx (j : Json) : Bytes × Bip340.RandSrc × Bytes :=
-  (jhex j "sk", (if jisNull j "aux" then .counter (jbig j "ctr") else .reader (jhex j "aux")), jhex j "m")
+  let rs : Bip340.RandSrc :=
+    if !(jisNull j "auxstream") then
+      .reader (Readers.readFull (jhex j "auxstream") 32 (List.replicate (jhex j "auxstream").length (jnat j "chunk")))
+    else if jisNull j "aux" then .counter (jbig j "ctr") else .reader (jhex j "aux")
+  (jhex j "sk", rs, jhex j "m")
 
 def handle (op : String) (inp : Json) : Json :=
   match op with
